@@ -104,6 +104,7 @@ var lgTable = []lgEntry{
 	{Rule: "L2", Func: "tensor.(StdEng).Dot", Site: ".TensorMul(", Goal: "(%incr == nil)", Props: []string{"C09", "C07"}, Why: "the rank >= 3 contraction builds its own result and only copies it into a reuse tensor: an increment destination would be silently ignored, so it is refused (finding 75)"},
 	{Rule: "L1", Func: "tensor.(StdEng).RepeatReuse", Site: "$r.denseRepeat(", Goal: "(%ok && $reuse.Shape().Eq(%newShape))", Props: []string{"C10", "C13"}, Why: "a reuse destination is accepted only when its shape is the computed result shape: the repeat fills it by the result's geometry, and the returned tensor must have the shape the shape-only calculator predicts"},
 	{Rule: "S21", Func: "tensor.(Shape).Concat", Site: "return ", NotAfter: "errors.", Goal: "(!(0 > $axis) && (!($axis >= $r.Dims()) || !($axis >= len($r))))", Props: []string{"C13", "C10"}, Why: "the concatenation axis is an axis of the operands: an axis equal to the rank is accepted by no execution path (denseConcat indexes the shape with it)"},
+	{Rule: "S21", Func: "tensor.(Shape).Repeat", Site: "$ret0 = tensor.Shape{", Goal: "(($axis == AllAxes) || $r.IsScalar())", Props: []string{"C13", "C10"}, Why: "the literal result shapes belong to the flattening request and to true scalars: a (1,1) or (1,1,1) operand has axes, keeps them and is repeated along the one asked for (IsScalarEquiv is not IsScalar)"},
 	// ---- mask inspection (C15) -----------------------------------------------------------------------
 	{Rule: "L1", Func: "tensor.doMaskAll", Site: "range %ts.mask", Goal: "(%ts.IsMasked() && (%ts.Size() == len(%ts.mask)))", Props: []string{"C15"}, Why: "the whole-mask fold is the fold over the tensor's elements only when the mask covers exactly those elements (a view's mask window is longer)"},
 	{Rule: "L1", Func: "tensor.doMaskAny", Site: "range %ts.mask", Goal: "(%ts.IsMasked() && (%ts.Size() == len(%ts.mask)))", Props: []string{"C15"}, Why: "the whole-mask fold is the fold over the tensor's elements only when the mask covers exactly those elements"},
